@@ -19,4 +19,4 @@ Extraction "model.ml"
   Shared.step Shared.run Shared.cache_get Shared.guard_step Shared.plain_flag Shared.styled
   FrontEnd.front_end_from Parser.counter_after Parser.fuel_for Parser.parse_top Base.N_to_string
   Display.display Display.annotation_of
-  Sem.exec Spec.frontier Values.debug SemP.pat_ok Report.node_display.
+  Sem.exec Sem.exec_top Spec.frontier Values.debug SemP.pat_ok Report.node_display.
